@@ -9,6 +9,13 @@
 (*           chains of ALL live wrapper objects afterwards) interleaved with calls on any object *)
 (*           and with the caller mutating in place what a call returned to it (op "mutate")       *)
 (*   "memo"  a call sequence on cache(f) for a counting f, keys of any kind (also unhashable)    *)
+(*   "args"  a session on the caller's bindings: getcallargs / call_with_callargs on f (obj 0) and *)
+(*           on W(f) (obj 1) / the caller's own edits, every event with ALL the caller's bindings   *)
+(*           as they are afterwards                                                                 *)
+(*   "deco"  a session with several functions (sigs) and several ready-made decorator objects      *)
+(*           (layers): decorate events (decorator k applied to function -on or to the decorated    *)
+(*           function on) and calls, every event with the projection [fn, chain] of ALL decorated  *)
+(*           functions afterwards; calls with the outcome and the evaluations of every function     *)
 (* Verdict folds the events of a history over the abstract state with the operators of           *)
 (* Decorators.tla and returns "" or the name of the first clause the observation breaks.         *)
 (* Clauses starting with "spec_" mean the specification or the driver is wrong, not pyg-base.    *)
@@ -121,7 +128,76 @@ MemoFold(sig, es, i, m, ev) ==
          ELSE (IF MemoIdx(m, cc) # {} THEN "memo_first_result" ELSE "memo_evaluates_once") \o at
 MemoVerdict(o) == IF ~WellFormed(o.sig) THEN "spec_bad_signature" ELSE MemoFold(o.sig, o.events, 1, <<>>, 0)
 
+\* ------------------------------------------------------------------------------------- args
+\* state: the caller's bindings as the specification has them; an event is [op, obj, cc, i, e, out, store]
+ArgsClause(sig, chain, st, e) ==
+    LET ch == IF e.obj = 0 THEN <<>> ELSE chain  suffix == IF e.obj = 0 THEN "" ELSE "_wrapped" IN
+    IF e.op = "get" THEN
+         IF ~Valid(sig, e.cc) THEN "spec_invalid_call"
+         ELSE IF e.out # Bind(sig, e.cc) THEN "getcallargs" \o suffix
+         ELSE IF e.store # Append(st, Bind(sig, e.cc)) THEN "argument_changed" ELSE ""
+    ELSE IF e.op = "replay" THEN
+         IF e.i > Len(st) THEN "spec_bad_binding"
+         ELSE IF e.store # st THEN "argument_changed"                                 \* a call owns nothing of the caller
+         ELSE IF ~OutOK(ReplayLaw(sig, ch, st[e.i]), e.out) THEN "call_with_callargs" \o suffix ELSE ""
+    ELSE IF e.op = "edit" THEN
+         IF e.i > Len(st) \/ ~EditApplies(sig, e.e) THEN "spec_bad_edit"
+         ELSE IF e.store # [st EXCEPT ![e.i] = Edited(sig, @, e.e)] THEN "spec_edit" ELSE ""
+    ELSE "spec_unknown_event"
+ArgsNext(sig, st, e) == IF e.op = "get" THEN Append(st, Bind(sig, e.cc))
+                        ELSE IF e.op = "edit" THEN [st EXCEPT ![e.i] = Edited(sig, @, e.e)] ELSE st
+RECURSIVE ArgsFold(_, _, _, _, _)
+ArgsFold(sig, chain, es, i, st) ==
+    IF i > Len(es) THEN ""
+    ELSE LET v == ArgsClause(sig, chain, st, es[i]) IN
+         IF v # "" THEN v \o "@" \o ToString(i) ELSE ArgsFold(sig, chain, es, i + 1, ArgsNext(sig, st, es[i]))
+ArgsVerdict(o) == IF ~WellFormed(o.sig) THEN "spec_bad_signature" ELSE ArgsFold(o.sig, <<o.layer>>, o.events, 1, <<>>)
+
+\* ------------------------------------------------------------------------------------- deco
+\* state: decorated functions [fn, chain, memo = keys evaluated]; an event is [op, k, on, cc, out, evals, heap, specs]
+DecoViewOf(st) == [i \in 1..Len(st) |-> [fn |-> st[i].fn, chain |-> st[i].chain]]
+DecoPinned(st, i) == /\ st[i].chain = <<CacheLayer>>
+                     /\ \A j \in 1..Len(st) : (j # i /\ st[j].fn = st[i].fn) => ~HasCls(st[j].chain, "cache")
+DecoNew(o, st, e) == IF e.on < 0 THEN [fn |-> -e.on, chain |-> <<o.layers[e.k]>>, memo |-> <<>>]
+                     ELSE [fn |-> st[e.on].fn, chain |-> NormalForm(o.layers[e.k], st[e.on].chain), memo |-> <<>>]
+DecoClause(o, st, e) ==
+    IF e.op = "decorate" THEN
+         IF e.k > Len(o.layers) \/ e.on = 0 \/ -e.on > Len(o.sigs) \/ e.on > Len(st) THEN "spec_bad_target"
+         ELSE LET want == Append(DecoViewOf(st), [fn |-> DecoNew(o, st, e).fn, chain |-> DecoNew(o, st, e).chain]) IN
+              IF Len(e.heap) # Len(want) THEN "heap_size"
+              ELSE IF \E i \in 1..Len(st) : e.heap[i] # want[i] THEN "only_new_object"
+              ELSE IF e.heap[Len(want)] # want[Len(want)] THEN "normal_form"
+              ELSE IF \E i \in 1..Len(want) : e.specs[i] # ArgSpec(o.sigs[want[i].fn]) THEN "same_signature"
+              ELSE ""
+    ELSE IF e.on < 1 \/ e.on > Len(st) THEN "spec_bad_target"
+    ELSE LET ob == st[e.on]  sig == o.sigs[ob.fn]  cc == e.cc
+             f == BaseOutcome(sig, Effective(sig, ob.chain, cc))
+             want == LawOutcome(sig, ob.chain, cc)
+             hit == \E k \in 1..Len(ob.memo) : ob.memo[k] = cc IN
+         IF ~ValidFor(sig, ob.chain, cc) THEN "spec_invalid_call"
+         ELSE IF e.heap # DecoViewOf(st) THEN "call_changed_an_object"
+         ELSE IF ~OutOK(want, e.out) THEN (IF IsInterrupt(f) THEN "interrupt_passes_through"
+                                          ELSE IF IsFailure(f) /\ TryIdx(ob.chain) # {} THEN "fallback_iff_raises" ELSE "transparent_call")
+         ELSE IF \E j \in 1..Len(o.sigs) : j # ob.fn /\ e.evals[j] # 0 THEN "evaluates_other_function"
+         ELSE IF DecoPinned(st, e.on) /\ ~IsExc(f) /\ ~UnhashableCall(cc) /\ e.evals[ob.fn] # (IF hit THEN 0 ELSE 1)
+              THEN (IF hit THEN "memo_first_result" ELSE "memo_evaluates_once")
+         ELSE ""
+DecoNext(o, st, e) ==
+    IF e.op = "decorate" THEN Append(st, DecoNew(o, st, e))
+    ELSE LET ob == st[e.on]  sig == o.sigs[ob.fn]
+             normal == ~IsExc(BaseOutcome(sig, Effective(sig, ob.chain, e.cc)))
+             hit == \E k \in 1..Len(ob.memo) : ob.memo[k] = e.cc IN
+         [st EXCEPT ![e.on].memo = IF HasCls(ob.chain, "cache") /\ normal /\ ~hit THEN Append(@, e.cc) ELSE @]
+RECURSIVE DecoFold(_, _, _, _)
+DecoFold(o, es, i, st) ==
+    IF i > Len(es) THEN ""
+    ELSE LET v == DecoClause(o, st, es[i]) IN
+         IF v # "" THEN v \o "@" \o ToString(i) ELSE DecoFold(o, es, i + 1, DecoNext(o, st, es[i]))
+DecoVerdict(o) == IF \E j \in 1..Len(o.sigs) : ~WellFormed(o.sigs[j]) THEN "spec_bad_signature" ELSE DecoFold(o, o.events, 1, <<>>)
+
 Verdict(o) == CASE o.part = "bind" -> BindVerdict(o)
+                [] o.part = "deco" -> DecoVerdict(o)
+                [] o.part = "args" -> ArgsVerdict(o)
                 [] o.part = "hist" -> HistVerdict(o)
                 [] o.part = "memo" -> MemoVerdict(o)
                 [] OTHER -> "spec_unknown_part"
